@@ -15,6 +15,7 @@
 package resolve
 
 import (
+	"slices"
 	"sort"
 	"strings"
 
@@ -91,7 +92,7 @@ func sortNPMVersions(vs []Version) {
 		} else {
 			allPrerelease = false
 		}
-		if tags, _ := v.GetAttr(version.Tags); strings.Contains(tags, "latest") {
+		if tags, _ := v.GetAttr(version.Tags); slices.Contains(strings.Split(tags, ","), "latest") {
 			latestIdx = i
 			latestIsPrerelease = vers[v.VersionKey] != nil && vers[v.VersionKey].IsPrerelease()
 		}
